@@ -2,7 +2,9 @@
 use super::*;
 use std::net::{Ipv4Addr, Ipv6Addr, SocketAddrV4, SocketAddrV6};
 
-fn no_bt() -> bool { false }
+fn no_bt() -> bool {
+    false
+}
 
 /// Complete: every IPv4 bind config (any prefix length 0..=32), source and destination.
 #[kani::proof]
@@ -13,12 +15,21 @@ fn v4_send_addr_rule() {
     kani::assume(p <= 32);
     let ip_net = Ipv4Net::new(Ipv4Addr::from(a), p).unwrap();
     let is_default: bool = kani::any();
-    let cfg = Config::V4 { ip_net, port: kani::any(), is_required: kani::any(), is_default };
+    let cfg = Config::V4 {
+        ip_net,
+        port: kani::any(),
+        is_required: kani::any(),
+        is_default,
+    };
     let d: [u8; 4] = kani::any();
     let dst = SocketAddr::V4(SocketAddrV4::new(Ipv4Addr::from(d), kani::any()));
     // no source: the bound prefix must contain the destination
     let r = cfg.is_valid_send_addr(None, dst);
-    let mask: u32 = if p == 0 { 0 } else { u32::MAX << (32 - p as u32) };
+    let mask: u32 = if p == 0 {
+        0
+    } else {
+        u32::MAX << (32 - p as u32)
+    };
     let expect = (u32::from_be_bytes(a) & mask) == (u32::from_be_bytes(d) & mask);
     kani::cover!(expect && p > 0, "a contained destination exists");
     assert_eq!(r, expect);
@@ -30,10 +41,18 @@ fn v4_send_addr_rule() {
     assert!(!cfg.is_valid_send_addr(Some(IpAddr::V6(Ipv6Addr::from(s6))), dst));
     // other-family destination without source: never
     let d6: [u8; 16] = kani::any();
-    let dst6 = SocketAddr::V6(SocketAddrV6::new(Ipv6Addr::from(d6), kani::any(), kani::any(), kani::any()));
+    let dst6 = SocketAddr::V6(SocketAddrV6::new(
+        Ipv6Addr::from(d6),
+        kani::any(),
+        kani::any(),
+        kani::any(),
+    ));
     assert!(!cfg.is_valid_send_addr(None, dst6));
     // default-route rule: by family of the source if given, else of the destination
-    assert_eq!(cfg.is_valid_default_addr(Some(IpAddr::V4(Ipv4Addr::from(s))), dst6), is_default);
+    assert_eq!(
+        cfg.is_valid_default_addr(Some(IpAddr::V4(Ipv4Addr::from(s))), dst6),
+        is_default
+    );
     assert_eq!(cfg.is_valid_default_addr(None, dst), is_default);
     assert!(!cfg.is_valid_default_addr(None, dst6));
     assert!(!cfg.is_valid_default_addr(Some(IpAddr::V6(Ipv6Addr::from(s6))), dst));
@@ -49,15 +68,33 @@ fn v6_send_addr_rule() {
     let ip_net = Ipv6Net::new(Ipv6Addr::from(a), p).unwrap();
     let scope: u32 = kani::any();
     let is_default: bool = kani::any();
-    let cfg = Config::V6 { ip_net, scope_id: scope, port: kani::any(), is_required: kani::any(), is_default };
+    let cfg = Config::V6 {
+        ip_net,
+        scope_id: scope,
+        port: kani::any(),
+        is_required: kani::any(),
+        is_default,
+    };
     let d: [u8; 16] = kani::any();
     let dscope: u32 = kani::any();
-    let dst = SocketAddr::V6(SocketAddrV6::new(Ipv6Addr::from(d), kani::any(), kani::any(), dscope));
+    let dst = SocketAddr::V6(SocketAddrV6::new(
+        Ipv6Addr::from(d),
+        kani::any(),
+        kani::any(),
+        dscope,
+    ));
     let r = cfg.is_valid_send_addr(None, dst);
-    let mask: u128 = if p == 0 { 0 } else { u128::MAX << (128 - p as u32) };
+    let mask: u128 = if p == 0 {
+        0
+    } else {
+        u128::MAX << (128 - p as u32)
+    };
     let contains = (u128::from_be_bytes(a) & mask) == (u128::from_be_bytes(d) & mask);
     let link_local = d[0] == 0xfe && (d[1] & 0xc0) == 0x80;
-    kani::cover!(link_local && !contains && scope == dscope, "link-local destination on the socket's scope");
+    kani::cover!(
+        link_local && !contains && scope == dscope,
+        "link-local destination on the socket's scope"
+    );
     assert_eq!(r, contains || (link_local && scope == dscope));
     let s: [u8; 16] = kani::any();
     let r2 = cfg.is_valid_send_addr(Some(IpAddr::V6(Ipv6Addr::from(s))), dst);
@@ -65,6 +102,9 @@ fn v6_send_addr_rule() {
     let s4: [u8; 4] = kani::any();
     assert!(!cfg.is_valid_send_addr(Some(IpAddr::V4(Ipv4Addr::from(s4))), dst));
     assert_eq!(cfg.is_valid_default_addr(None, dst), is_default);
-    assert_eq!(cfg.is_valid_default_addr(Some(IpAddr::V6(Ipv6Addr::from(s))), dst), is_default);
+    assert_eq!(
+        cfg.is_valid_default_addr(Some(IpAddr::V6(Ipv6Addr::from(s))), dst),
+        is_default
+    );
     assert!(!cfg.is_valid_default_addr(Some(IpAddr::V4(Ipv4Addr::from(s4))), dst));
 }
